@@ -184,14 +184,19 @@ impl Server {
                 // prioritize nodes supporting signed peers..
                 let mut nodes = signing_peers_routing_table.closest(target).to_vec();
                 if nodes.len() < MAX_BUCKET_SIZE_K {
-                    nodes.extend_from_slice(
-                        &routing_table
-                            .closest(target)
-                            .iter()
-                            .take(MAX_BUCKET_SIZE_K - nodes.len())
-                            .cloned()
-                            .collect::<Vec<_>>(),
-                    );
+                    // ..then fill up with the closest nodes of the main table that are not
+                    // listed already (a node is usually in both tables).
+                    for node in routing_table.closest(target).iter() {
+                        if nodes.len() >= MAX_BUCKET_SIZE_K {
+                            break;
+                        }
+
+                        if !nodes.iter().any(|listed| {
+                            listed.id() == node.id() && listed.address() == node.address()
+                        }) {
+                            nodes.push(node.clone());
+                        }
+                    }
                 }
 
                 MessageType::Response(ResponseSpecific::FindNode(FindNodeResponseArguments {
